@@ -59,9 +59,9 @@ fn gtype(d: &str) -> GffType {
     }
 }
 
-fn do_write(log: &mut Log, d: &str, recs: &[Rec]) -> Option<Vec<u8>> {
+fn do_write(log: &mut Log, d: &str, recs: &[Rec], quoted: bool) -> Option<Vec<u8>> {
     let mut out: Option<Vec<u8>> = None;
-    log.call("write", json!({"recs": Value::Array(recs.iter().map(rec_json).collect())}), || {
+    log.call("write", json!({"recs": Value::Array(recs.iter().map(rec_json).collect()), "q": quoted as u8}), || {
         let mut buf: Vec<u8> = vec![];
         let mut errs = 0;
         {
@@ -212,7 +212,7 @@ pub fn drive(log: &mut Log) {
         log.oblige(d);
         let n = rng.range(1, 5) as usize;
         let recs: Vec<Rec> = (0..n).map(|_| rand_rec(&mut rng, d, log)).collect();
-        let data = match do_write(log, d, &recs) {
+        let data = match do_write(log, d, &recs, false) {
             Some(x) => x,
             None => continue,
         };
@@ -225,6 +225,43 @@ pub fn drive(log: &mut Log) {
         let bad = wild_fault(&mut rng, &data);
         log.oblige("wild");
         do_read(log, d, &bad, "wild", "wild");
+    }
+
+    // (a2) plain columns (seqname, source, type, score, strand) containing double quotes: quoted
+    // and unquoted by the csv layer; only parsed == written is judged (attribute keys / values stay
+    // without quotes: the reader strips quotes from them by design)
+    for _ in 0..log.opts.n(150, 1500) {
+        case += 1;
+        if !log.mine(case) {
+            continue;
+        }
+        let mut rng = Rng::new(seed, 131, case);
+        let d = DIALECTS[(case % 3) as usize];
+        if !log.begin("quote", json!({"dialect": d})) {
+            continue;
+        }
+        let n = rng.range(1, 3) as usize;
+        let mut recs: Vec<Rec> = vec![];
+        for _ in 0..n {
+            let mut r = rand_rec(&mut rng, d, log);
+            match rng.below(5) {
+                0 => r.seqname = qtok(&mut rng),
+                1 => r.source = qtok(&mut rng),
+                2 => r.ftype = qtok(&mut rng),
+                3 => r.score = qtok(&mut rng),
+                _ => r.strand = qtok(&mut rng),
+            }
+            if rng.coin() {
+                r.ftype = qtok(&mut rng);
+            }
+            recs.push(r);
+        }
+        log.oblige("gff_quote_columns");
+        let data = match do_write(log, d, &recs, true) {
+            Some(x) => x,
+            None => continue,
+        };
+        do_read(log, d, &data, "rt", "none");
     }
 
     // (b) the attribute column alone: every string over a small alphabet (delimiters of all
